@@ -7,7 +7,12 @@ CFG = dict(
               "quat_rotate_mul", "quat_rotate_norm_general", "quat_rotate_norm", "quat_rotate_add", "quat_rotate_smul",
               "quat_identity_rotate", "quat_fromTheta_unit", "quat_rotationTo_generic", "halfturn_flips", "quat_rotationTo_antiparallel", "trs_transform",
               "aabb_setMinMax_min", "aabb_setMinMax_max", "aabb_contains_iff", "aabb_encapsulatePoint_contains",
-              "aabb_encapsulatePoint_mono", "aabb_encapsulateBounds_contains", "aabb_encapsulateBounds_mono", "aabb_fromPoints_min", "aabb_fromPoints_max", "aabb_fromPoints_contains_all", "aabb_closestPoint_in_box", "aabb_closestPoint_id_inside"],
+              "aabb_encapsulatePoint_mono", "aabb_encapsulateBounds_contains", "aabb_encapsulateBounds_mono", "aabb_fromPoints_min", "aabb_fromPoints_max", "aabb_fromPoints_contains_all", "aabb_closestPoint_in_box", "aabb_closestPoint_id_inside",
+              # Props/C17More.lean
+              "halfAngle_rotate", "normalized_dot_self", "quat_fromTheta_rodrigues", "quat_fromTheta_fixes_axis", "quat_fromTheta_angle",
+              "trs_new", "trs_position", "trs_scale", "trs_rotation", "trs_translate", "matFromDirs_frame",
+              "aabb_intersects_iff", "aabb_expand_minmax", "aabb_expand_contains", "aabb_volume", "aabb_closestPoint_minimises"],
+    modules=["PolyVerif.Props.C17", "PolyVerif.Props.C17More"],
     streams=[dict(name="c17", n=dict(quick=300, thorough=20000),
                   ulps={"c17.quat.fromtheta": (8, 1e-15), "c17.quat.rotationto": (8, 1e-15)})],
     trusted=T_COMMON + ["sin/cos: Go math.Sin/Cos vs libm compared within 8 ulps (only FromTheta uses them)"],
@@ -19,7 +24,7 @@ CFG = dict(
              "RotationTo parallel branch (dot > 0.999999) returns the identity: a is mapped onto itself, i.e. onto b only up to the 0.08° the threshold allows (corresponded; covered by the oracle with tolerance)"],
     assumptions=["float64 arithmetic in Go on amd64 is IEEE-754 without FMA contraction"],
     manifest=dict(
-        text="Lean 4 theorems over ℝ about definitions regenerated from math/{mat,quaternion,trs,geometry} on every run (entrywise add, row-by-column product = Mathlib matrix product, identity/assoc/inverse laws, det = Matrix.det, quaternion composition/length/linearity, FromTheta unit, RotationTo maps a onto b for UNIT a, b (generic branch; the opposite branch maps a onto -a), TRS = R(S∘v)+T, AABB encapsulate/closest-point containment); kernel-checked, axioms audited per theorem; the regenerated definitions are executed at Float and compared bit-for-bit with the Go functions, and the theorem predicates are evaluated on the Go functions' outputs.",
+        text="Lean 4 theorems over ℝ about definitions regenerated from math/{mat,quaternion,trs,geometry} on every run (entrywise add, row-by-column product = Mathlib matrix product, identity/assoc/inverse laws, det = Matrix.det, quaternion composition/length/linearity, FromTheta unit and — Rodrigues' formula — exactly the rotation by θ about the axis (axis fixed, orthogonal vectors turn by θ), RotationTo maps a onto b for UNIT a, b (generic branch; the opposite branch maps a onto -a), TRS = R(S∘v)+T with its constructors and Translate, MatFromDirs = orthonormal right-handed frame, AABB encapsulate containment, ClosestPoint in the box AND nearest among all box points, Intersects iff the boxes share a point, Expand, Volume); kernel-checked, axioms audited per theorem; the regenerated definitions are executed at Float and compared bit-for-bit with the Go functions, and the theorem predicates are evaluated on the Go functions' outputs.",
         note="Trusted: Lean kernel; propext/Classical.choice/Quot.sound; translator go/xlate and its vector-library table; harness; Go toolchain. Not proved: IEEE rounding error; mesh-level transforms are correspondence + pointwise oracle (no theorem); NewAABBFromPoints is hand-modelled.",
         technique="Lean 4 proof over a model regenerated from source (translator) + Float bit-exact correspondence"),
 )
